@@ -173,6 +173,7 @@ type vpIdP struct {
 	rotate         bool
 	noDiscovery    bool   // no /.well-known/openid-configuration
 	logoutStatus   int    // status of the backend-logout endpoint (0 => 200)
+	pkceMisses     int    // redemption attempts without the verifier of the code's challenge
 	advertise      string // discovery: code_challenge_methods_supported  both | plain | s256 | absent
 	refreshMode    string // ok | fail | unsupported(no RT issued)
 	idTokenTTL     int    // seconds
@@ -427,6 +428,15 @@ func (p *vpIdP) hToken(rw http.ResponseWriter, r *http.Request) {
 	}
 	if g := p.gate2; g != nil {
 		g(kind, form.Get("refresh_token"))
+	}
+	if kind == "token_code" {
+		// C05 (ii), seen from the provider: EVERY redemption attempt of a code - also one that will be answered with a fault, also a
+		// repeated one - carries exactly the verifier of the challenge the authorization request of that code carried
+		p.mu.Lock()
+		if c := p.codes[form.Get("code")]; c != nil && c.Challenge != "" && !vpPKCEOk(c.Method, c.Challenge, form.Get("code_verifier")) {
+			p.pkceMisses++
+		}
+		p.mu.Unlock()
 	}
 	if p.applyFault(kind, rw, r) {
 		return
